@@ -139,6 +139,23 @@ Proof.
 Qed.
 Print Assumptions C04_backlog_bound.
 
+(* the relay clause: whatever a relay's sender replies to a frame it was handed - also when it discards the frame because
+   downstream asked for a newer id - is the state of the relay's next recv(): the skip is passed upstream and the relay waits
+   for that id instead of taking (and discarding) frame after frame.  The one exception is a deferred result that declined
+   (evaluated to None): nothing was sent and the reply is the sender's old mark.  (MQGlue.v, compared with the real MQ on every
+   run; oracle counterpart 'glue:sender-reply-not-passed-upstream'.) *)
+From OF Require Import Proto.MQGlue.
+Theorem C04_relay_passes_reply_upstream :
+  forall m lazy frames called r res,
+    (lazy && called && (match frames with None => true | Some _ => false end)) = false ->
+    let '(_, m1, ok) := mq_send true m (Some (lazy, frames)) called (Some r) in
+    ok = true /\ fst (fst (mq_recv true m1 res)) = Some r.
+Proof.
+  intros m lazy frames called r res H. unfold mq_send. rewrite H. cbn.
+  split; [reflexivity|]. unfold mq_recv. destruct res as [[d st]|]; reflexivity.
+Qed.
+Print Assumptions C04_relay_passes_reply_upstream.
+
 (* the bound is met: a call, an empty poll (the consumer asks), a delivery, a poll that reads it (nothing sent), an empty poll
    (the set is complete: the prefetch goes out with the return) - two messages to the source, two spending steps of five *)
 Example C04_request_budget_tight :
